@@ -7,6 +7,7 @@ MODULE = "Poupool.Properties.C12"
 
 def run(chk):
     ac.run_actor_property(chk, MODULE, THEOREMS, monitor_pids=["C12"], extra=globals().get("extra"))
+    refused_request_monitor(chk)
 
 
 def search(chk):
@@ -98,3 +99,79 @@ def extra(chk, info, res):
             chk.violation("closed-before-eco-position", f"do_repeat_closing requests `closed` at position {p_} > configured eco position {e}", {"kind": "cover-poll", "poll": "closing", "position": p_, "eco": e})
         elif r.startswith("poll") and ((k == "open" and p_ == 100) or (k == "close" and p_ <= e)):
             chk.violation("cover-phase-not-left", f"the cover poll keeps polling although the cover reported the target position ({k}, position {p_}, eco {e})", {"kind": "cover-poll", "poll": k, "position": p_, "eco": e})
+
+
+_TWIN = r"""
+import sys, json
+sys.path.insert(0, %r)
+from sim.system import bootstrap
+bootstrap()
+from sim import scenario
+cases = json.loads(sys.stdin.read())
+out = []
+def snap(r):
+    s = r.sys
+    return {"filtration": s.state("Filtration") if r.world.alive("Filtration") else "DEAD", "outputs": s.outputs(), "tank": s.state("Tank") if r.world.alive("Tank") else "DEAD"}
+for (opts, prefix, request, checkpoints) in cases:
+    res = []
+    for with_request in (True, False):
+        r = scenario.Runner(dict(opts), [])
+        for a in prefix:
+            r.do(a)
+        before = snap(r)
+        if with_request:
+            r.do(request)
+        snaps = [snap(r)]
+        for d in checkpoints:
+            r.do(["run", d])
+            snaps.append(snap(r))
+        r.world.close()
+        res.append({"before": before, "snaps": snaps})
+    out.append(res)
+print("RESULT " + json.dumps(out))
+""" % __import__("vlib.common", fromlist=["VERIF"]).VERIF
+
+
+def refused_request_monitor(chk):
+    """a refused request leaves mode and outputs unchanged: the run WITH the refused request must be indistinguishable from the twin run
+    WITHOUT it, immediately and at later instants (a refusal that disturbs the eco schedule shows at the next poll)"""
+    import json
+    import os
+    import subprocess
+
+    from vlib.common import REPO
+
+    OPTS = {"tank_raw": 1000.0, "cover_rate": 25.0, "ph": 7.6, "orp": 550.0, "start": "2024-06-03T10:00:00"}
+    ECO_N = [["temp", "pool", 28.0], ["mqtt", "/settings/filtration/duration", "36000"], ["mqtt", "/settings/filtration/period", "3"], ["mqtt", "/settings/mode", "eco"], ["run", 30]]
+    ECO_W = [["temp", "pool", 28.0], ["mqtt", "/settings/filtration/duration", "3600"], ["mqtt", "/settings/filtration/period", "3"], ["mqtt", "/settings/mode", "eco"], ["run", 2000]]
+    HEAT = [["temp", "pool", 20.0], ["mqtt", "/settings/filtration/duration", "86400"], ["mqtt", "/settings/mode", "eco"], ["run", 1400]]
+    LOW = [["tank", 12], ["run", 33]]          # the tank controller is in `low`
+    MID = [["tank", 50], ["run", 33]]          # not high
+    COMF0 = [["temp", "pool", 28.0], ["mqtt", "/settings/mode", "eco"], ["run", 20], ["mqtt", "/settings/mode", "standby"], ["run", 400], ["mqtt", "/settings/mode", "comfort"], ["run", 30], ["mqtt", "/settings/filtration/speed/standby", "0"], ["run", 3]]
+    cases = []
+    for name, pre in (("eco_normal", ECO_N), ("eco_waiting", ECO_W), ("heating_running", HEAT)):
+        for off in (0, 3, 7):
+            for req in ("standby", "overflow"):
+                cases.append((f"{req} with a low tank in {name}", OPTS, pre + LOW + [["run", off]], ["mqtt", "/settings/mode", req], [1, 12, 60, 700]))
+            if name != "heating_running":
+                cases.append((f"wash with a tank that is not high in {name}", OPTS, pre + MID + [["run", off]], ["mqtt", "/settings/mode", "wash"], [1, 12, 60, 700]))
+    cases.append(("standby from comfort with stand-by speed 0", OPTS, COMF0, ["mqtt", "/settings/mode", "standby"], [1, 12, 60, 300]))
+    p = subprocess.run(["/venv/bin/python", "-c", _TWIN], input=json.dumps([c[1:] for c in cases]), capture_output=True, text=True, timeout=1800, env={**os.environ, "POUPOOL_REPO": REPO})
+    real = None
+    for line in p.stdout.split("\n"):
+        if line.startswith("RESULT "):
+            real = json.loads(line[7:])
+    if real is None:
+        chk.obligation("harness: twin runs (with / without the refused request)", False, (p.stdout + p.stderr)[-800:])
+        return
+    bad = 0
+    for (name, opts, prefix, request, cps), (w, wo) in zip(cases, real):
+        for k, (a, b) in enumerate(zip(w["snaps"], wo["snaps"])):
+            if a["filtration"] != b["filtration"] or a["outputs"] != b["outputs"]:
+                bad += 1
+                when = "immediately" if k == 0 else f"{sum(cps[:k])} s later"
+                chk.violation(f"refused-request-changes-something:{name.split(' in ')[0].replace(' ', '-')}",
+                              f"refused request ({name}; tank {w['before']['tank']}): {when} the controller is in {a['filtration']} with outputs {a['outputs']}, without the request it is in {b['filtration']} with outputs {b['outputs']}",
+                              {"kind": "scenario", "scenario": {"opts": opts, "actions": prefix + [request] + [["run", d] for d in cps[:max(k, 1)]]}, "twin": "the same scenario without the request"})
+                break
+    chk.correspondence("refused requests (open mode with a low tank, backwash without a high tank, comfort->standby at speed 0; in eco_normal / eco_waiting / heating_running at three poll offsets) on the REAL composed system: run with the request vs twin run without it, state and outputs at 0 / 1 / 13 / 73 / 773 s", len(cases), bad)
